@@ -4,6 +4,7 @@ import HC.Proofs.UpgradeComplete
 import HC.Proofs.Sync
 import HC.Proofs.Replica
 import HC.Proofs.Growth
+import HC.Proofs.HashReq
 /-!
 # C03 — any honest proof is accepted and replicas converge to the writer's data
 
@@ -53,8 +54,9 @@ Proved so far:
   size so that flushing cannot surface a half slot), `apply_first_upgrade`, `apply_block`, `get_held`.
 * **`replica_grows`** (unbounded, core level, **growth rounds**): the same for a log that keeps growing.  After first
   contact at any length `n₁`, the replica plays any list of acts — *upgrade to the writer's current length `n`*
-  (any `n` above its own length, as often as the writer grows) and *fetch block `i`* (any index below its current
-  length), in any order.  The upgrade answer is the greedy decomposition of `[m, n)` into aligned blocks
+  (any `n` above its own length, as often as the writer grows), *fetch block `i`* (any index below its current
+  length) and *ask for the hash of tree node `(d, o)`* (any full node inside its current length; `HashReq.apply_hash`:
+  the path is stored, no data, no bitfield change), in any order.  The upgrade answer is the greedy decomposition of `[m, n)` into aligned blocks
   (`Growth.Up`; `up_exists`: it exists for every `m < n`); inside the first new root the replica's `verify_upgrade`
   runs its `grow` loop, where every appended block is the right sibling of the current last root and merges upwards
   like a binary counter.  Every act is answered `true`; at the end the replica reports the last length and its byte
@@ -64,10 +66,11 @@ Proved so far:
   returns for the request "upgrade me from `m`" when its log has `n` blocks (the "connect existing tree" walk of
   `upgrade_proof` collects the right siblings from leaf `m − 1` up to the first new root: `Growth.connectWalk_honest`,
   `grow_rightSibs`).
+* `honest_hash_is_writers`: likewise for hash requests (`HashReq.create_hash_proof`).
 * `honest_block_is_writers`: the proof applied in these theorems is the one the writer's `create_valueless_proof`
   produces for the replica's request, with the block's bytes.
 
-Partial: proofs with a hash or seek section, upgrades to less than the writer's length (additional nodes),
+Partial: proofs with a seek section, upgrades to less than the writer's length (additional nodes),
 block + upgrade in one proof, replica reopen and writer-side clears are not proved complete;
 they are validated by the correspondence run — every honest proof (all request orders, partial upgrades
 with additional nodes, seeks, hash sweeps, replica reopen, cleared blocks) must be accepted by the real
@@ -280,17 +283,17 @@ example (C : Crypto) (bs : Array Bytes) (hs : bs.size < 2 ^ 64 ∧ Offsets.psum 
 theorem replica_grows (C : Crypto) (hC : TreeStore.HashWF C) (bs : Array Bytes) (hs : bs.size < 2 ^ 64 ∧ Offsets.psum bs bs.size < 2 ^ 64)
     (n₁ : Nat) (h0 : 0 < n₁) (hn : n₁ ≤ bs.size) (c : Core) (d : Disk) (h : Replica.FreshR C (bs.extract 0 n₁) c d)
     (sig : Bytes) (hsl : sig.length = 64) (hver : C.verify c.publicKey (Growth.signableAt C bs n₁ c.tree.fork) sig = true)
-    (acts : List Growth.Act) (hok : Growth.OkActs C bs c.publicKey c.tree.fork n₁ acts) :
+    (acts : List HashReq.Act) (hok : HashReq.OkActs C bs c.publicKey c.tree.fork n₁ acts) :
     let st1 := c.verifyAndApply C d (Growth.honestFirst C bs c.tree.fork n₁ sig)
-    let s2 := Growth.play C bs (st1.core, d.applyAll st1.journal) acts
+    let s2 := HashReq.play C bs (st1.core, d.applyAll st1.journal) acts
     st1.result = .ok true
-      ∧ Growth.playResults C bs (st1.core, d.applyAll st1.journal) acts = acts.map (fun _ => .ok true)
-      ∧ s2.1.tree.length = Growth.lenAfter n₁ acts ∧ s2.1.tree.byteLength = Offsets.psum bs (Growth.lenAfter n₁ acts)
-      ∧ (∀ j, Growth.fetched acts j = true → (s2.1.getBlock s2.2 j).result = .ok (some (bs.getD j [])))
-      ∧ (∀ j, Growth.fetched acts j = false → (s2.1.getBlock s2.2 j).result = .ok none) := by
+      ∧ HashReq.playResults C bs (st1.core, d.applyAll st1.journal) acts = acts.map (fun _ => .ok true)
+      ∧ s2.1.tree.length = HashReq.lenAfter n₁ acts ∧ s2.1.tree.byteLength = Offsets.psum bs (HashReq.lenAfter n₁ acts)
+      ∧ (∀ j, HashReq.fetched acts j = true → (s2.1.getBlock s2.2 j).result = .ok (some (bs.getD j [])))
+      ∧ (∀ j, HashReq.fetched acts j = false → (s2.1.getBlock s2.2 j).result = .ok none) := by
   intro st1 s2
   obtain ⟨r1, r2, r3, r4⟩ := Growth.first_contact_at C hC bs hs n₁ h0 hn c d h sig hsl hver
-  obtain ⟨q1, q2⟩ := Growth.play_repr C hC bs c.publicKey c.tree.fork acts n₁ _ _ _ r2 h0 r4 r3 hok
+  obtain ⟨q1, q2⟩ := HashReq.play_repr C hC bs c.publicKey c.tree.fork acts n₁ _ _ _ r2 h0 r4 r3 hok
   refine ⟨r1, q2, q1.closed.sparse.length, q1.bytes, fun j hj => ?_, fun j hj => ?_⟩
   · exact Growth.get_held_at C bs _ _ _ _ q1 j (by simp [hj])
   · exact Growth.get_missing_at C bs _ _ _ _ q1 j (by simp [hj])
@@ -312,5 +315,16 @@ theorem honest_growth_is_writers (C : Crypto) (bs : Array Bytes) (n : Nat) (hn :
   rw [hsz] at this
   rw [this, ← Growth.honestGrowth_extract C bs n hn tw.fork m us sig hup]
   rfl
+
+/-- the hash proofs of `replica_grows` are the writer's answer to the replica's request -/
+theorem honest_hash_is_writers (C : Crypto) (bs : Array Bytes) (tw : Tree) (fw : File) (hT : RefProof.RootsOK C bs tw.changeset)
+    (hN : Offsets.NodesOK C bs tw fw) (hs : bs.size < 2 ^ 64) (c : Core) (d : Disk) (held : Nat → Bool)
+    (h : Replica.RepR C bs c d held) (hf : c.tree.fork = tw.fork) (d0 o0 : Nat) (hin : (o0 + 1) * 2 ^ d0 ≤ bs.size) :
+    ∃ nodes, tw.createValuelessProof fw none (some ⟨Flat.index d0 o0, c.tree.missingNodes d.tree (Flat.index d0 o0)⟩) none none
+        = .ok ⟨tw.fork, none, some ⟨Flat.index d0 o0, nodes⟩, none, none⟩
+      ∧ HashReq.honestHash C bs c d d0 o0 = ⟨tw.fork, none, some ⟨Flat.index d0 o0, nodes⟩, none, none⟩ := by
+  obtain ⟨_, hin', hd0⟩ := HashReq.missingNodes_spec_node C bs bs.size c.tree d.tree h.closed.sparse hs d0 o0 hin
+  refine ⟨_, HashReq.create_hash_proof C bs tw fw hT hN hs d0 o0 _ hd0 hin', ?_⟩
+  simp [HashReq.honestHash, hf]
 
 end HC.C03
